@@ -220,7 +220,16 @@ impl Context {
         b: Node,
         op: BinaryOpcode,
     ) -> Result<Node, BadNode> {
-        self.op_binary(a.min(b), a.max(b), op)
+        // Keep a lone constant on the right-hand side: flattening lowers
+        // `op(const, node)` to `OpRegImm(node, const)`, and `min` / `max` are
+        // only commutative up to the sign of zero.
+        let (a, b) =
+            match (self.get_const(a).is_ok(), self.get_const(b).is_ok()) {
+                (true, false) => (b, a),
+                (false, true) => (a, b),
+                _ => (a.min(b), a.max(b)),
+            };
+        self.op_binary(a, b, op)
     }
 
     /// Builds an addition node
